@@ -63,7 +63,13 @@ func sharedRound(c *fw.Ctx, G, iters, procs int) {
 			for _, f := range fs {
 				f.count = []int{0, 1, 1, 2, 3}[gr.Intn(5)]
 			}
-			inputs[g] = append(inputs[g], encodeLz(gr, fs))
+			in := encodeLz(gr, fs)
+			if gr.Chance(1, 8) && len(in) > 1 {
+				// a malformed input now and then: a well-formed prefix, then a key without a value; the
+				// failed pass must not leave anything behind for whoever gets the pooled object next
+				in = append(append([]byte{}, in...), 0x08)
+			}
+			inputs[g] = append(inputs[g], in)
 			var rq []reqT
 			for k := 0; k < 4; k++ {
 				rq = append(rq, reqT{genLzPath(gr, def, fs), accNames[gr.Intn(len(accNames))]})
@@ -110,6 +116,28 @@ func sharedRound(c *fw.Ctx, G, iters, procs int) {
 							o.viol = &fw.Violation{Stream: "shared", Signature: "conc/foreign-value/" + q.name,
 								What:  fmt.Sprintf("goroutine %d observed a value that is not its own input's", g),
 								Input: fmt.Sprintf("%s input=%s path=%s", desc, hexs(in), pathString(q.path)), Expected: trunc(want, 200), Got: trunc(got, 200)}
+						}
+					}
+					// explicit nested results, closed by the client before the root (documented as a no-op)
+					for _, e := range def.entries {
+						if e.sub == nil || e.key < 0 {
+							continue
+						}
+						if n, nerr := res.NestedResult(e.key); nerr == nil && n != nil {
+							if payload, ok := lastPayload(in, e.key); ok {
+								for _, se := range e.sub.entries {
+									if se.sub != nil || se.key < 0 {
+										continue
+									}
+									got := accessPath(n, []int{se.key}, "Bytess")
+									if want, ok := refPathAnswer(payload, e.sub, []int{se.key}, "Bytess"); ok && want != got && o.viol == nil {
+										o.viol = &fw.Violation{Stream: "shared", Signature: "conc/foreign-value/nested-result",
+											What:  fmt.Sprintf("goroutine %d observed, in a nested result, a value that is not its own input's", g),
+											Input: fmt.Sprintf("%s input=%s nested=%d tag=%d", desc, hexs(in), e.key, se.key), Expected: trunc(want, 200), Got: trunc(got, 200)}
+									}
+								}
+							}
+							n.Close()
 						}
 					}
 					res.Close()
